@@ -23,7 +23,7 @@ RULE = (
     "definition, and the composite with the column-wise concatenation of its parts. With "
     "filters (positive durations): dominated, non-idle, default pair. Constructibility: every "
     "observer type x every non-empty subset of its supported feature types is constructed on "
-    "every instance. Case = one history prefix under one observer configuration; non-trivial "
+    "every instance, followed by a second observer of the same class with another subset on the same dispatcher (distinct object, exactly the requested types). Case = one history prefix under one observer configuration; non-trivial "
     "= >= 2 steps involving >= 2 jobs."
 )
 ASSUMPTIONS = [
